@@ -89,6 +89,22 @@ func (p *statsProcessor) Process(inputIQR *iqr.IQR) (*iqr.IQR, error) {
 
 	// If inputIQR is nil, we are done with the input
 	if inputIQR == nil {
+		if p.searchResults == nil && p.processorType == structs.SegmentStatsCmd {
+			// The input ended without a single batch (e.g. no segment in the
+			// time range). An aggregation without by-clause still has one
+			// result row (count = 0, ...), exactly as when the input consists
+			// of empty batches; so aggregate an empty batch.
+			emptyIQR := iqr.NewIQR(p.qid)
+			err := emptyIQR.AppendKnownValues(map[string][]sutils.CValueEnclosure{})
+			if err != nil {
+				return nil, utils.TeeErrorf("qid=%v, statsProcessor.Process: cannot make empty batch; err=%v", p.qid, err)
+			}
+			_, err = p.processMeasureOperations(emptyIQR)
+			if err != nil {
+				return nil, err
+			}
+		}
+
 		defer func() { p.gaveResults = true }()
 		return p.extractFinalStatsResults()
 	} else {
